@@ -114,7 +114,7 @@ def check(run, ctx):
     for n in ast.walk(fv.node):
         if isinstance(n, ast.Call) and call_name(n).startswith("_output_"):
             a = n.args[0] if n.args else None
-            if not (isinstance(a, ast.Name) and a.id == "violations"):
+            if not (isinstance(a, ast.Name) and a.id == fv.node.args.args[0].arg):
                 run.finding(X3, "format_violations", f"arg:{norm(n)}", f"{norm(n)} does not receive the full violation list", fv.loc)
     # JSON
     oj = repo.func(f"{CLI_UTILS}._output_json")
@@ -156,13 +156,18 @@ def check(run, ctx):
                     res = v
                 if isinstance(k, ast.Constant) and k.value == "tool":
                     tool_arg = v
-    ok = isinstance(res, ast.ListComp) and not res.generators[0].ifs and ast.unparse(res.generators[0].iter) == "violations" and isinstance(tool_arg, ast.Call) and tool_arg.args and ast.unparse(tool_arg.args[0]) == "violations"
+    vlist = cr.node.args.args[1].arg if len(cr.node.args.args) > 1 else "violations"   # (self, violations)
+    ok = isinstance(res, ast.ListComp) and not res.generators[0].ifs and ast.unparse(res.generators[0].iter) == vlist and isinstance(tool_arg, ast.Call) and tool_arg.args and ast.unparse(tool_arg.args[0]) == vlist
     (run.ok(X3, "SARIF run", "results over all violations; tool(rules) from the same list") if ok else run.finding(X3, "SarifFormatter._create_run", "same-list", "results and driver.rules are not derived from the same unfiltered list", cr.loc))
     crs = repo.func(f"{SARIF}._create_rules")
-    _check_single_iteration(run, X3, crs, "violations")
-    rid = [n for n in ast.walk(repo.func(f"{SARIF}._create_rule").node) if isinstance(n, ast.Dict)]
-    ok = any(isinstance(k, ast.Constant) and k.value == "id" and ast.unparse(v) == "violation.rule_id" for d in rid for k, v in zip(d.keys, d.values))
-    ok2 = any(isinstance(k, ast.Constant) and k.value == "ruleId" and ast.unparse(v) == "violation.rule_id" for d in ast.walk(repo.func(f"{SARIF}._create_result").node) if isinstance(d, ast.Dict) for k, v in zip(d.keys, d.values))
+    _check_single_iteration(run, X3, crs, crs.node.args.args[1].arg if len(crs.node.args.args) > 1 else "violations")
+    def vparam(fn_):
+        a_ = fn_.node.args.args
+        return a_[1].arg if len(a_) > 1 and a_[0].arg in ("self", "cls") else a_[0].arg
+    crl, crr = repo.func(f"{SARIF}._create_rule"), repo.func(f"{SARIF}._create_result")
+    rid = [n for n in inline.flat_nodes(repo, crl) if isinstance(n, ast.Dict)]
+    ok = any(isinstance(k, ast.Constant) and k.value == "id" and ast.unparse(v) == f"{vparam(crl)}.rule_id" for d in rid for k, v in zip(d.keys, d.values))
+    ok2 = any(isinstance(k, ast.Constant) and k.value == "ruleId" and ast.unparse(v) == f"{vparam(crr)}.rule_id" for d in inline.flat_nodes(repo, crr) if isinstance(d, ast.Dict) for k, v in zip(d.keys, d.values))
     (run.ok(X3, "SARIF ruleId/id", "both are violation.rule_id") if ok and ok2 else run.finding(X3, "SarifFormatter", "rule-id", "result.ruleId and rules[].id are not both violation.rule_id", crs.loc))
     cl = repo.func(f"{SARIF}._create_location")
     sl = sc = None
@@ -173,8 +178,9 @@ def check(run, ctx):
                     sl = v
                 if isinstance(k, ast.Constant) and k.value == "startColumn":
                     sc = v
-    (run.ok(X3, "SARIF startLine", "violation.line") if sl is not None and ast.unparse(sl) == "violation.line" else run.finding(X3, "SarifFormatter._create_location", f"startLine:{norm(sl) if sl is not None else None}", "startLine is not violation.line", cl.loc))
-    (run.ok(X3, "SARIF startColumn", "violation.column + 1") if sc is not None and ast.unparse(sc) in ("violation.column + 1", "1 + violation.column") else run.finding(X3, "SarifFormatter._create_location", f"startColumn:{norm(sc) if sc is not None else None}", "startColumn is not violation.column + 1 (SARIF columns are 1-based, Violation columns 0-based)", cl.loc))
+    vp_ = vparam(cl)
+    (run.ok(X3, "SARIF startLine", "violation.line") if sl is not None and ast.unparse(sl) == f"{vp_}.line" else run.finding(X3, "SarifFormatter._create_location", f"startLine:{norm(sl) if sl is not None else None}", "startLine is not violation.line", cl.loc))
+    (run.ok(X3, "SARIF startColumn", "violation.column + 1") if sc is not None and ast.unparse(sc) in (f"{vp_}.column + 1", f"1 + {vp_}.column") else run.finding(X3, "SarifFormatter._create_location", f"startColumn:{norm(sc) if sc is not None else None}", "startColumn is not violation.column + 1 (SARIF columns are 1-based, Violation columns 0-based)", cl.loc))
 
     # ------------------------------------------------------------- X4/X5
     L = Linters(ctx)
